@@ -738,27 +738,242 @@ def _carrier(ty):
     return None
 
 
-def _owned_operand(fn, operand, depth=0):
-    """Every producer of the operand hands out storage of its own (detach / promote / alloc_str), or no heap data at all."""
+EVAL_EXPR = "runtime::Runtime::eval_expr"
+CODE_BEARING = ("parser::Expr", "parser::ArgList", "parser::Block", "parser::Stmt")
+_ITER_THROUGH = ("::iter", "::into_iter", "Deref>::deref", "::as_slice", "::iter_mut", "IntoIterator>::into_iter", "::as_ref")
+
+
+def subject(fn, e):
+    """Path of an expression node reached from a parameter or a local: (root, (segment, ...)).  References, derefs and
+    iterator adaptors are transparent; one step of an iterator is the segment `[*]`, a constant index `[k]`."""
+    k = e[0] if isinstance(e, tuple) else None
+    if k in ("ref", "deref"):
+        return subject(fn, e[1])
+    if k == "var":
+        return (("arg", e[2]) if 0 < e[2] <= fn.argc else ("local", e[2]), ())
+    if k == "arg":
+        return (("arg", e[1]), ())
+    if k == "field":
+        inner = e[1]
+        if isinstance(inner, tuple) and inner[0] == "as" and inner[2] == "Some" and isinstance(inner[1], tuple) and inner[1][0] == "call" and inner[1][1].endswith("Iterator>::next") and str(e[2]) == "0":
+            r, segs = subject(fn, inner[1][2][0])
+            return (r, segs + ("[*]",))
+        r, segs = subject(fn, inner)
+        return (r, segs + ("." + str(e[2]),))
+    if k == "as":
+        r, segs = subject(fn, e[1])
+        return (r, segs + (" as " + str(e[2]),))
+    if k == "index":
+        r, segs = subject(fn, e[1])
+        ix = e[2]
+        return (r, segs + ("[%s]" % (ix[2] if isinstance(ix, tuple) and ix[0] == "const" and len(ix) > 2 and ix[2] is not None else "?"),))
+    if k == "call":
+        if any(e[1].endswith(x) for x in _ITER_THROUGH) and e[2]:
+            return subject(fn, e[2][0])
+        return (("call", e[1], e[3] if len(e) > 3 else None), ())
+    return (("other", show(e) if isinstance(e, tuple) else str(e)), ())
+
+
+def _subj_text(fn, sub):
+    root, segs = sub
+    if root[0] == "arg":
+        base = fn.locals[root[1]]["name"] or "arg%d" % root[1]
+    elif root[0] == "local":
+        base = fn.locals[root[1]]["name"] or "_%d" % root[1]
+    elif root[0] == "call":
+        base = root[1].split("::")[-1] + "()"
+    else:
+        base = str(root[1])
+    return base + "".join(segs)
+
+
+def covers(g, x):
+    """Does guard subject g cover evaluated subject x: same root, g's path a prefix of x's, `[*]` standing for any element."""
+    if g is None or x is None or g[0] != x[0] or len(g[1]) > len(x[1]):
+        return False
+    for a, b in zip(g[1], x[1]):
+        if a == b or (a == "[*]" and b.startswith("[") and b != "[?]"):
+            continue
+        return False
+    return True
+
+
+def quiet_predicates(ctx):
+    """Functions (expression) -> bool whose `false` answer means: evaluating that expression cannot return a pool slot.
+    Sound when, for every expression kind on which the function answers false, the arm of eval_expr for that kind makes no
+    call from which a slot can be returned.  -> {fid: (sound, [why...], {quiet kinds})}"""
+    from ..tables import mir_enum_table
+    memo = getattr(ctx, "_quiet_predicates", None)
+    if memo is not None:
+        return memo
+    R = may_recycle_set(ctx)
+    ev = ctx.lib.fns.get(EVAL_EXPR)
+    out = {}
+    for fn in ctx.lib.fns.values():
+        if fn.file != "src/runtime.rs" or fn.argc != 1 or fn.locals[0]["ty"] != "bool" or "parser::Expr" not in fn.locals[1]["ty"]:
+            continue
+        tab = mir_enum_table(fn, 1)
+        if not tab or ev is None:
+            continue
+        quiet = {v for v, res in tab.items() if [str(r) for r in res] != ["true"]}
+        why = []
+        arms = set()
+        for v in tab:
+            arms |= _dispatch_arm(ev, "parser::Expr", v) or set()
+        for c in ev.calls():
+            if c.block not in arms and c.block in ev.live and c.callee and parent_fn(c.callee) in R:
+                why.append("eval_expr calls %s on the path every kind takes" % parent_fn(c.callee).split("::")[-1])
+        for v in sorted(quiet):
+            reg = _dispatch_arm(ev, "parser::Expr", v)
+            if reg is None:
+                why.append("%s: eval_expr has no arm of its own" % v)
+                continue
+            for c in ev.calls():
+                if c.block in reg and c.callee and parent_fn(c.callee) in R:
+                    why.append("%s: its arm calls %s, which can return a pool slot" % (v, parent_fn(c.callee).split("::")[-1]))
+        out[fn.id] = (not why, why, quiet)
+    try:
+        ctx._quiet_predicates = out
+    except Exception:
+        pass
+    return out
+
+
+def _dispatch_arm(fn, enum_suffix, variant):
+    for S in sorted(fn.live):
+        if fn.blocks[S]["t"]["k"] != "switch":
+            continue
+        si = fn.switch_info(S)
+        if si["kind"] == "discr" and si["ty"].endswith(enum_suffix):
+            for lab, tgt in fn.succ[S]:
+                if label_names(fn, S, [lab], si) == {variant}:
+                    return {x for x in fn.reach([tgt], removed_nodes=[S]) if fn.edge_dominated(x, S, [lab])} | {tgt}
+            return None
+    return None
+
+
+def quiet_edges(ctx, fn):
+    """[(switch, label, guard subject)]: edges taken only when a sound quiet predicate answered false for the subject (or for
+    every element of it)."""
+    memo = fn.__dict__.setdefault("_quiet_edges", None)
+    if memo is not None:
+        return memo
+    qpall = quiet_predicates(ctx)
+    qp = set(qpall)
+    out = []
+    for S in sorted(fn.live):
+        t = fn.blocks[S]["t"]
+        if t["k"] != "switch":
+            continue
+        e = fn.deep(t["d"], 18)
+        flip = False
+        while isinstance(e, tuple) and e[0] == "un" and e[1] == "Not":
+            flip = not flip
+            e = e[2]
+        if not (isinstance(e, tuple) and e[0] == "call"):
+            continue
+        g = None
+        used = None
+        if e[1] in qp and e[2]:
+            g = subject(fn, e[2][0])
+            used = e[1]
+        elif e[1].endswith("Iterator>::any") and len(e[2]) == 2 and isinstance(e[2][1], tuple) and e[2][1][0] == "agg" and str(e[2][1][1]).startswith("closure:"):
+            clo = ctx.lib.fns.get(str(e[2][1][1])[len("closure:"):])
+            if clo is not None and any(c.callee in qp for c in clo.calls()) and not any(c.callee and c.callee not in qp and parent_fn(c.callee).startswith("runtime::") for c in clo.calls()):
+                r, segs = subject(fn, e[2][0])
+                g = (r, segs + ("[*]",))
+                used = [c.callee for c in clo.calls() if c.callee in qp][0]
+        if g is None:
+            continue
+        out.append((S, "else" if flip else 0, g, used))
+    fn.__dict__["_quiet_edges"] = out
+    return out
+
+
+def evaluated_subjects(ctx, fn, call, R, depth=0):
+    """The expressions whose evaluation is all the code `call` can run, as subjects in fn's terms; None when the callee can
+    return a pool slot in any other way (a statement block, a direct release, ...)."""
+    cal = parent_fn(call.callee or "")
+    if cal == EVAL_EXPR:
+        return [subject(fn, fn.deep(call.args[1], 18))] if len(call.args) > 1 else None
+    if cal in RECYCLERS or depth > 3:
+        return None
+    callee = ctx.lib.fns.get(cal)
+    if callee is None:
+        return None
+    out = []
+    for body in [callee] + list(ctx.lib.closures_of(callee.id)):
+        for c2 in body.calls():
+            if not (c2.callee and parent_fn(c2.callee) in R):
+                continue
+            if body is not callee:
+                return None
+            subs = evaluated_subjects(ctx, callee, c2, R, depth + 1)
+            if subs is None:
+                return None
+            for (root, segs) in subs:
+                if root[0] != "arg" or root[1] - 1 >= len(call.args):
+                    return None
+                r0, s0 = subject(fn, fn.deep(call.args[root[1] - 1], 18))
+                out.append((r0, s0 + segs))
+    return out
+
+
+def owning_wrappers(ctx):
+    """Functions of the runtime whose every returned value comes from a producer that hands out storage of its own."""
+    memo = getattr(ctx, "_owning_wrappers", None)
+    if memo is not None:
+        return memo
+    own = set(OWNING)
+    for _ in range(3):
+        for fn in ctx.lib.fns.values():
+            if fn.id in own or fn.file != "src/runtime.rs" or "runtime::Value" not in fn.locals[0]["ty"] or fn.locals[0]["ty"].startswith("&"):
+                continue
+            orgs = origins(fn, {"copy": {"l": 0, "p": []}}, 8)
+            if orgs and all(k == "call" and det[0] in own for (_, k, det) in orgs):
+                own.add(fn.id)
+    try:
+        ctx._owning_wrappers = own
+    except Exception:
+        pass
+    return own
+
+
+def _owned_operand(fn, operand, depth=0, ctx=None, quiet_for=None):
+    """Every producer of the operand hands out storage of its own (detach / promote / alloc_str), or no heap data at all.
+    With `quiet_for` (the expressions that are all the crossing call evaluates): a producer is also accepted on a path taken
+    only when a sound quiet predicate said those expressions cannot run code."""
     why = []
     hf = frame_switches(fn)
+    owning = owning_wrappers(ctx) if ctx is not None else OWNING
+    qe = quiet_edges(ctx, fn) if (ctx is not None and quiet_for) else []
     for (bi, k, det) in origins(fn, operand, 8):
         if k == "const":
             continue
-        if k == "call" and det[0] in OWNING:
+        if k == "call" and det[0] in owning:
             continue
         if bi is not None and any(no_frame_edge_dominates(fn, b, hf) for b in chain_blocks(bi)):
             continue    # the configuration without a frame arena is the reference the property compares with
+        if bi is not None and qe:
+            qpall = quiet_predicates(ctx)
+            sound = [q for q in qe if qpall[q[3]][0]]
+            if all(any(fn.edge_dominated(b, S, [lab]) and covers(g, x) for (S, lab, g, _) in sound for b in chain_blocks(bi)) for x in quiet_for):
+                continue    # raw only when nothing evaluated while it is held can run code
+            for (S, lab, g, used) in qe:
+                if not qpall[used][0] and any(fn.edge_dominated(b, S, [lab]) for b in chain_blocks(bi)):
+                    why.append("guard %s answers `cannot run code` for a kind that can (%s)" % (used.split("::")[-1], "; ".join(qpall[used][1][:2])))
+                elif any(fn.edge_dominated(b, S, [lab]) for b in chain_blocks(bi)) and not all(covers(g, x) for x in quiet_for):
+                    why.append("the guard at bb%d tests %s, but what runs while the value is kept is %s" % (S, _subj_text(fn, g), ", ".join(_subj_text(fn, x) for x in quiet_for if not covers(g, x))))
         if k == "agg" and det[0] == "runtime::Value" and det[1] in HEAPLESS:
             continue
         if k == "agg" and det[0] == "runtime::Value" and det[1] in ("Str", "Array", "Host") and depth < 3:
-            if all(_owned_operand(fn, o, depth + 1)[0] for o in det[2]):
+            if all(_owned_operand(fn, o, depth + 1, ctx, quiet_for)[0] for o in det[2]):
                 continue
         if k == "agg" and det[0].endswith("ArenaCow") and det[1] == "Owned":
             continue
         if k == "call" and (det[0].endswith("::branch") or det[0].endswith("::from_residual")) and depth < 4:
             # `?` on a Result: look through to what was tried
-            if all(_owned_operand(fn, a, depth + 1)[0] for a in det[1].get("args", [])):
+            if all(_owned_operand(fn, a, depth + 1, ctx, quiet_for)[0] for a in det[1].get("args", [])):
                 continue
         why.append("%s:%s" % (k, (det[0] if k in ("call", "agg") else det)))
     return (not why, why)
@@ -849,8 +1064,9 @@ def r6_nothing_borrowed_is_held_across_recycling(ctx):
                 ordn = sum(1 for r in ctx.records if r["rule"] == ctx.rule and r["instance"].split("#")[0] == base)
                 key = "%s#%d" % (base, ordn + 1)
                 ok, why = False, []
+                subs = evaluated_subjects(ctx, fn, c, R)
                 if kind == "value":
-                    ok, why = _owned_operand(fn, {"copy": {"l": l, "p": []}})
+                    ok, why = _owned_operand(fn, {"copy": {"l": l, "p": []}}, 0, ctx, subs)
                     if not ok and c.target is not None and _uses_are_heap_free(fn, l, [c.target]):
                         ctx.ok(key + "|heap-free-use", fn.where(c.block), "`%s` is only asked for its kind / read as a number after %s returns" % (name, callee))
                         continue
@@ -861,7 +1077,7 @@ def r6_nothing_borrowed_is_held_across_recycling(ctx):
                         ok, why = True, []
                         ctx.ok(key + "|arity<=1", fn.where(c.block), "every global built-in takes at most one argument (arity table), and the resolver rejects other counts: the vector is empty while that argument is evaluated")
                         continue
-                    res = [_owned_operand(fn, p.args[1]) for p in pushes]
+                    res = [_owned_operand(fn, p.args[1], 0, ctx, subs) for p in pushes]
                     ok = all(r[0] for r in res)
                     why = [w for r in res for w in r[1]]
                 elif kind == "ref":
@@ -874,13 +1090,35 @@ def r6_nothing_borrowed_is_held_across_recycling(ctx):
                             if isinstance(a, dict):
                                 pl = a.get("move") or a.get("copy")
                                 if pl is not None and not pl["p"]:
-                                    for (bi, k, st) in cs.fn.whole_defs(pl["l"]):
-                                        if k != "t" and st["rv"]["k"] == "ref" and not st["rv"]["of"]["p"]:
-                                            tgt = st["rv"]["of"]["l"]
-                                        elif k != "t" and st["rv"]["k"] == "ref":
-                                            res.append((False, ["place:" + cs.fn.place_str(st["rv"]["of"])]))
+                                    work, seen_refs = [pl["l"]], set()
+                                    while work:
+                                        rl = work.pop()
+                                        if rl in seen_refs:
+                                            continue
+                                        seen_refs.add(rl)
+                                        for (bi, k, st) in cs.fn.whole_defs(rl):
+                                            if k == "t" or st["rv"]["k"] != "ref":
+                                                continue
+                                            of = st["rv"]["of"]
+                                            if not of["p"]:
+                                                tgt = of["l"]
+                                            elif of["p"] == ["*"] and cs.fn.locals[of["l"]]["ty"].startswith("&"):
+                                                work.append(of["l"])    # a reborrow: follow the reference it renews
+                                            elif all(isinstance(e, dict) and ("as" in e or "f" in e) for e in of["p"]):
+                                                tgt = of["l"]           # a part of a value the caller holds: the whole value must own its storage
+                                            else:
+                                                res.append((False, ["place:" + cs.fn.place_str(of)]))
                             if tgt is not None:
-                                res.append(_owned_operand(cs.fn, {"copy": {"l": tgt, "p": []}}))
+                                csubs = None
+                                if subs is not None:
+                                    csubs = []
+                                    for (root, segs) in subs:
+                                        if root[0] != "arg" or root[1] - 1 >= len(cs.args):
+                                            csubs = None
+                                            break
+                                        r0, s0 = subject(cs.fn, cs.fn.deep(cs.args[root[1] - 1], 18))
+                                        csubs.append((r0, s0 + segs))
+                                res.append(_owned_operand(cs.fn, {"copy": {"l": tgt, "p": []}}, 0, ctx, csubs))
                             elif not res:
                                 res.append((False, ["unknown-argument"]))
                         ok = bool(res) and all(r[0] for r in res)
@@ -1148,3 +1386,6 @@ EXPLANATION += (
 ASSUMPTIONS = ["values reach variables only through the sinks discovered by type in runtime.rs", "cfg(test)/wasm/windows code not analysed"]
 TRUSTED = ["rustc nightly MIR construction", "nsx exporter", "nsverif dominance / provenance (flow-insensitive over defs of a local)"]
 NONTRIVIAL = "one obligation per sink / release site / reset site / promotion arm; distinct = distinct (function, sink kind, ordinal)"
+EXPLANATION += (
+    " Round-5 (second half): R6 no longer only asks whether a held value owns its storage - a raw (borrowing) producer is also accepted on a path taken only when a *sound quiet predicate* answered `cannot run code` for exactly the expressions the crossing call evaluates. The predicate (any fn(&Expr) -> bool of runtime.rs; today may_run_code) is sound when, for every expression kind it answers false for, the arm of eval_expr for that kind - and the path every kind takes - makes no call from which a pool slot can be returned; the guard's subject (a path such as `expr as Binary.rhs`, `args.args[*]`, with `[*]` for one step of an iterator) has to cover the subject of every eval_expr the crossing callee can reach, translated through its parameters. Functions whose every returned value comes from detach/promote/alloc_str count as owning producers (detach_operand). A guard on the wrong operand, a predicate that calls Index quiet, a dropped detach, a guard on the first argument only and a flipped guard are each reported with that reason."
+)
